@@ -16,37 +16,37 @@ import (
 )
 
 type RunResult struct {
-	Harness      string
-	Paths        int
-	PathEnds     map[string]int
-	Obligations  int
-	ObUnsat      int
-	ObSat        int
-	ObUnknown    int
-	ObConcrete   int
-	Violations   []Violation
-	Reached      map[string]bool
-	ReachModels  map[string][]NondetRec
-	Funcs        map[*ssa.Function]bool
-	Stubs        map[string]int
-	Inconclusive map[string]int
-	Unsupported  map[string]int
-	Steps        int64
-	Decisions    int64
-	SolverQ      int
-	SolverSat    int
-	SolverUnsat  int
-	SolverUnk    int
-	SolverErr    int
-	SolverTime   time.Duration
-	Wall         time.Duration
-	Samples      []map[string]any
-	ObLabels     map[string]int
-	Truncated    bool
-	States       int64
-	Transitions  int64
-	Observes     map[string]int
-	InitFails    map[string]int
+	Harness       string
+	Paths         int
+	PathEnds      map[string]int
+	Obligations   int
+	ObUnsat       int
+	ObSat         int
+	ObUnknown     int
+	ObConcrete    int
+	Violations    []Violation
+	Reached       map[string]bool
+	ReachModels   map[string][]NondetRec
+	Funcs         map[*ssa.Function]bool
+	Stubs         map[string]int
+	Inconclusive  map[string]int
+	Unsupported   map[string]int
+	Steps         int64
+	Decisions     int64
+	SolverQ       int
+	SolverSat     int
+	SolverUnsat   int
+	SolverUnk     int
+	SolverErr     int
+	SolverTime    time.Duration
+	Wall          time.Duration
+	Samples       []map[string]any
+	ObLabels      map[string]int
+	Truncated     bool
+	States        int64
+	Transitions   int64
+	Observes      map[string]int
+	InitFails     map[string]int
 	DistinctPaths int
 	Cuts          map[string]int
 }
